@@ -49,7 +49,11 @@ def named_sexp(n):
     for e in n["env"]:
         parts.append("(e %s)" % hx(e))
     if n["help"] is not None:
-        parts.append("(h %s)" % hx(n["help"]))
+        if isinstance(n["help"], list):
+            # a styled Doc: [(style, text), ..] with style in text/literal/emphasis/invalid, adjacent styles differ, no empty text
+            parts.append("(hd %s)" % " ".join("(%s %s)" % (st, hx(tx)) for st, tx in n["help"]))
+        else:
+            parts.append("(h %s)" % hx(n["help"]))
     return "(named %s)" % " ".join(parts)
 
 
